@@ -688,7 +688,8 @@ int _vnadata_load_npd(vnadata_internal_t *vdip, FILE *fp, const char *filename)
 		nss.nss_filename, nss.nss_line);
 	goto out;
     }
-    if (1LL + 2LL * ports + 2LL * ports * ports *
+    if ((ports != 0 && ports > INT_MAX / ports) ||
+	    1LL + 2LL * ports + 2LL * ports * ports *
 	    (long long)MAX(vdip->vdi_format_count, 1) > (long long)INT_MAX) {
 	_vnadata_error(vdip, VNAERR_SYNTAX, "%s (line %d) error: "
 		"#:ports value %d is too large",
